@@ -8,6 +8,10 @@ import Exmex.Model.Lex
 import Exmex.Model.Tracker
 import Exmex.Model.Flat
 import Exmex.Model.Sym
+import Exmex.Model.Deep
+import Exmex.Model.Conv
+import Exmex.Spec.Order
+import Exmex.Proofs.FlattenDefs
 import Exmex.Spec.Surface
 open Exmex
 
@@ -154,7 +158,11 @@ def doFlat (f : List String) : String :=
           | .ok tk => decide (tk = c.toks I)
           | .error _ => false
         let flagged : Nat → Bool := fun k => (((t[k]?).bind (·.bin)).map (·.comm)).getD false
+        let flatOk := match wo with
+          | .ok fw => decide ((fw.nodes, fw.ops) = c.flat I t vars 0)
+          | .error _ => false
         "spec=" ++ (match c.denote I t ρ with | some v => v.show | none => "NONE") ++
+        "\tflatspec=" ++ (if flatOk then "ok" else "DIFF") ++
         "\tspec_nf=" ++ (match c.denote I t ρ with | some v => (v.assocNF flagged).show | none => "NONE") ++
         "\tsclones=" ++ toString ((vars.map (fun x => c.varOcc.count x - 1)).sum) ++
         "\tsvars=" ++ showStrs vars ++
@@ -163,10 +171,128 @@ def doFlat (f : List String) : String :=
     modelPart ++ "\t" ++ specPart
   | _ => "BADREQ"
 
+def evalDeep (I : Interp Sym) (d : DeepEx Sym) : String :=
+  showRes Sym.show (d.eval I (symVars d.vars.length))
+
+/-- apply a conversion history (`D` = to_deepex, `F` = from_deepex) starting from a flat expression;
+    conversions that are the identity on the current form are skipped as in the API -/
+def runHistory (I : Interp Sym) (t : Table) : List Char → (FlatEx Sym ⊕ DeepEx Sym) → Res (FlatEx Sym ⊕ DeepEx Sym)
+  | [], x => .ok x
+  | c :: cs, x =>
+    match c, x with
+    | 'D', .inl f =>
+      match f.toDeep I t with
+      | .error e => .error e
+      | .ok d => runHistory I t cs (.inr d)
+    | 'F', .inr d => runHistory I t cs (.inl (FlatEx.fromDeep I t d))
+    | _, y => runHistory I t cs y
+
+/-- `forms <table> <lm> <text> <chain|-> <spaces> <callform> <history>` -/
+def doForms (f : List String) : String :=
+  match f with
+  | [tb, lm, tx, ch, sp, cf, hist] =>
+    let t := parseTable tb
+    let text := unhex tx
+    let I := symInterpT t
+    let fl := Flat.parse I t (lmOf lm) text
+    let dp := Deep.parse I t (lmOf lm) text
+    let flatPart := match fl with
+      | .error e => "f=" ++ showFail e
+      | .ok f =>
+        "f=" ++ evalSym f ++ "\tfvars=" ++ showStrs f.vars ++
+        "\tbr=" ++ showStrs (f.binaryReprs t) ++ "\tur=" ++ showStrs (f.unaryReprs t) ++ "\tor=" ++ showStrs (f.operatorReprs t) ++
+        "\tfu=" ++ hex f.text ++
+        (match f.toDeep I t with
+          | .error e => "\tf2d=" ++ showFail e
+          | .ok d => "\tf2d=" ++ evalDeep I d ++ "\tf2dvars=" ++ showStrs d.vars ++ "\tf2dtext=" ++ hex (d.unparse I t)) ++
+        (match runHistory I t hist.toList (.inl f) with
+          | .error e => "\th=" ++ showFail e
+          | .ok (.inl g) => "\th=" ++ evalSym g ++ "\thvars=" ++ showStrs g.vars ++ "\thtext=" ++ hex g.text
+          | .ok (.inr d) => "\th=" ++ evalDeep I d ++ "\thvars=" ++ showStrs d.vars ++ "\thtext=" ++ hex (d.unparse I t))
+    let deepPart := match dp with
+      | .error e => "\td=" ++ showFail e
+      | .ok d =>
+        let d2f := FlatEx.fromDeep I t d
+        let txt := d.unparse I t
+        "\td=" ++ evalDeep I d ++ "\tdvars=" ++ showStrs d.vars ++ "\tdtext=" ++ hex txt ++
+        "\tdbr=" ++ showStrs (d.binaryReprs t) ++ "\tdur=" ++ showStrs (d.unaryReprs t) ++ "\tdor=" ++ showStrs (d.operatorReprs t) ++
+        "\td2f=" ++ evalSym d2f ++ "\td2fvars=" ++ showStrs d2f.vars ++
+        (match Flat.parse I t (lmOf lm) txt with
+          | .error e => "\trt=" ++ showFail e
+          | .ok g => "\trt=" ++ evalSym g ++ "\trtvars=" ++ showStrs g.vars)
+    let specPart :=
+      if ch == "-" then "\tspec=-" else
+      match parseChain ((splitOn ch " ").filter (· != "")) with
+      | none => "\tspec=BADCHAIN"
+      | some (c, _) =>
+        let (rendered, _) := c.render t { callForm := cf == "1" } (parseNats sp)
+        let vars := c.vars
+        let ρ : Env Sym := fun x => match vars.idxOf? x with | some i => .var i | none => .hole
+        let toksOk := match tokenize I t (lmOf lm) text with
+          | .ok tk => decide (tk = c.toks I)
+          | .error _ => false
+        let flagged : Nat → Bool := fun k => (((t[k]?).bind (·.bin)).map (·.comm)).getD false
+        "\tspec=" ++ (match c.denote I t ρ with | some v => v.show | none => "NONE") ++
+        "\tspec_nf=" ++ (match c.denote I t ρ with | some v => (v.assocNF flagged).show | none => "NONE") ++
+        "\tsvars=" ++ showStrs vars ++
+        "\trender=" ++ (if rendered == text then "ok" else "DIFF:" ++ hex rendered) ++
+        "\ttoks=" ++ (if toksOk then "ok" else "DIFF") ++
+        "\tlexsafe=" ++ (if lexSafe t then "ok" else "no")
+    flatPart ++ deepPart ++ specPart
+  | _ => "BADREQ"
+
+/-- `order <n> <perm>`: `eval_binary` on operands `V0..V(n-1)` with operator `k` building `(Bk a b)`,
+    with the tracker the library would choose (`word` for n ≤ 64) and with the slice tracker -/
+def doOrder (f : List String) : String :=
+  match f with
+  | [ns, perm] =>
+    let n := parseNat ns
+    let π := parseNats perm
+    let numbers := symVars n
+    let ap : Nat → Sym → Sym → Option Sym := fun k a b => some (.bin k a b)
+    let w := if n ≤ 64 then showRes Sym.show (evalBinary wordTracker .hole ap numbers π (0#64)) else "-"
+    let ws := showRes Sym.show (evalBinary wordsTracker .hole ap numbers π (List.replicate (1 + n / 64) (0#64)))
+    let sp := match reduceByOrder (fun k a b => Sym.bin k a b) numbers π with | some v => v.show | none => "NONE"
+    "w=" ++ w ++ "\tws=" ++ ws ++ "\tspec=" ++ sp
+  | _ => "BADREQ"
+
+/-- `track <nwords> <ops>`: drive a tracker with a sequence `p<i>` (get_previous), `n<i>` (get_next),
+    `i<i>` (ignore); `nwords = 0` is the single `usize`. Also runs the reference flags. -/
+def doTrack (f : List String) : String :=
+  match f with
+  | [nw, opsField] =>
+    let nwords := parseNat nw
+    let ops := if opsField == "-" then [] else splitOn opsField ","
+    let showO : Option Nat → String := fun o => match o with | some v => toString v | none => "PANIC"
+    let rec goW (w : Word) (fl : Flags) : List String → List String → List String → (List String × List String)
+      | [], acc, accF => (acc.reverse, accF.reverse)
+      | o :: rest, acc, accF =>
+        let i := parseNat ((o.drop 1).toString)
+        if o.startsWith "p" then goW w fl rest (toString (w.getPrevious i) :: acc) (toString (fl.getPrevious i) :: accF)
+        else if o.startsWith "n" then goW w fl rest (toString (w.getNext i) :: acc) (toString (fl.getNext i) :: accF)
+        else goW (w.ignore i) (fl.ignore i) rest acc accF
+    let rec goWs (ws : Words) (fl : Flags) : List String → List String → List String → (List String × List String)
+      | [], acc, accF => (acc.reverse, accF.reverse)
+      | o :: rest, acc, accF =>
+        let i := parseNat ((o.drop 1).toString)
+        if o.startsWith "p" then goWs ws fl rest (showO (ws.getPrevious i) :: acc) (toString (fl.getPrevious i) :: accF)
+        else if o.startsWith "n" then goWs ws fl rest (showO (ws.getNext i) :: acc) (toString (fl.getNext i) :: accF)
+        else match ws.ignore i with
+          | some ws' => goWs ws' (fl.ignore i) rest acc accF
+          | none => (("PANIC" :: acc).reverse, accF.reverse)
+    let nslots := if nwords == 0 then 64 else 64 * nwords
+    let (r, rf) := if nwords == 0 then goW (0#64) (List.replicate nslots false) ops [] []
+      else goWs (List.replicate nwords (0#64)) (List.replicate nslots false) ops [] []
+    "r=" ++ ",".intercalate r ++ "\tflags=" ++ ",".intercalate rf
+  | _ => "BADREQ"
+
 def handle (line : String) : String :=
   match splitOn line "\t" with
   | "lex" :: rest => doLex rest
   | "flat" :: rest => doFlat rest
+  | "forms" :: rest => doForms rest
+  | "order" :: rest => doOrder rest
+  | "track" :: rest => doTrack rest
   | _ => "BADKIND"
 
 partial def loop (h : IO.FS.Stream) (out : IO.FS.Stream) : IO Unit := do
